@@ -19,6 +19,7 @@ Universe values are built from *source strings* (so that every witness is a
 runnable snippet); classes / functions referenced by them live in this module.
 """
 import copy
+import functools
 import itertools
 import json
 import locale
@@ -103,9 +104,18 @@ class C05Pair(pg.Object):
   right: typing.Any = None
 
 
+class C05Tup(pg.Object):
+  """Schema-backed tuple / list / dict fields whose elements are objects."""
+  tt: pg.typing.Tuple([pg.typing.Object(C05Leaf), pg.typing.Int()]).noneable() = None
+  vt: pg.typing.Tuple(pg.typing.Object(C05Leaf), max_size=3).noneable() = None
+  tl: pg.typing.List(pg.typing.Tuple([pg.typing.Any(), pg.typing.Any()])) = []
+  td: pg.typing.Dict([(pg.typing.StrKey(), pg.typing.Tuple(pg.typing.Any()))]) = {}
+
+
 _ENV = dict(
     pg=pg, T=pg.typing, typing=typing, datetime=datetime, math=math, pathlib=pathlib,
-    C05Leaf=C05Leaf, C05Typed=C05Typed, C05Pair=C05Pair,
+    functools=functools,
+    C05Leaf=C05Leaf, C05Typed=C05Typed, C05Pair=C05Pair, C05Tup=C05Tup,
     c05_double=c05_double, c05_make_local=c05_make_local,
     c05_to_list=c05_to_list)
 
@@ -123,7 +133,7 @@ def constructible(src):
 
 
 def _header(src):
-  h = 'import typing, datetime, math, pathlib\nimport pyglove as pg\nT = pg.typing\n'
+  h = 'import typing, datetime, math, pathlib, functools\nimport pyglove as pg\nT = pg.typing\n'
   if 'C05' in src or 'c05_' in src:
     h += f'from {_MOD} import *\n'
   return h
@@ -524,6 +534,22 @@ _FORMS = {
     'str': ('j = pg.to_json_str(v{kw})', 'r = pg.from_json_str(j{lkw})'),
     'str-indent': ('j = pg.to_json_str(v, json_indent=2{kw})',
                    'r = pg.from_json_str(j{lkw})'),
+    # every other way the library offers to write a value and read it back
+    # (see drv_loader_options); /mem/ is per process and always written first.
+    'save-load': ("pg.save(v, '/mem/c05opt/v.json'{kw})",
+                  "r = pg.load('/mem/c05opt/v.json'{lkw})"),
+    'sym-save-load': ("v.save('/mem/c05opt/w.json'{kw})",
+                      "r = type(v).load('/mem/c05opt/w.json'{lkw})"),
+    'container-cls': ('j = pg.to_json(v{kw})',
+                      'r = (pg.List if isinstance(j, list) else pg.Dict).from_json(j{lkw})'),
+    'seq-deserializer': (
+        "with pg.io.open_sequence('/mem/c05opt/s.jsonl', 'w', serializer=pg.to_json_str) as f:\n"
+        '  f.add(v)',
+        "with pg.io.open_sequence('/mem/c05opt/s.jsonl', 'r', "
+        'deserializer=functools.partial(pg.from_json_str{lkw})) as f:\n'
+        '  r = list(iter(f))[0]'),
+    'open_jsonl': ("with pg.open_jsonl('/mem/c05opt/t.jsonl', 'w') as f:\n  f.add(v)",
+                   "with pg.open_jsonl('/mem/c05opt/t.jsonl', 'r') as f:\n  r = list(iter(f))[0]"),
 }
 
 
@@ -611,8 +637,8 @@ def json_roundtrip(src, form, kw=None, lkw=None, root_path=None, v=None,
   return True, '', '', base, r
 
 
-def record_json(rec, label, src, form, cid=None, **k):
-  v = ev(src)
+def record_json(rec, label, src, form, cid=None, _v=None, **k):
+  v = ev(src) if _v is None else _v
   dc = delicate_class(v, 'obj' if form == 'obj' else 'str')
   fam = 'json-obj' if form == 'obj' else 'json-str'
   if cid:
@@ -826,6 +852,189 @@ def drv_typed_objects(tier, seed):
                  f'value_spec {r.value_spec!r} != {v.value_spec!r}',
                  f'{_header(csrc)}v = {csrc}\nr = pg.from_json(pg.to_json(v), value_spec={spec})\n'
                  'assert r.value_spec == v.value_spec\n')
+  return rec.result()
+
+
+# -----------------------------------------------------------------------------
+# Loader options reach every position of the tree, through every entry point.
+# -----------------------------------------------------------------------------
+
+# container kind of every SHAPES entry (the loader has one branch per kind).
+_SHAPE_KIND = {
+    'list': 'list', 'list2': 'list', 'pg.List': 'list',
+    'tuple': 'tuple', 'tuple2': 'tuple',
+    'dict-str': 'dict', 'dict-str2': 'dict', 'dict-int': 'dict',
+    'dict-mixed': 'dict', 'pg.Dict': 'dict',
+    'obj-any': 'object', 'obj-pair': 'object', 'obj-typed-any': 'object',
+}
+
+# schema-backed holders ({e} must be a C05Leaf, possibly a partial one).
+TYPED_POSITION_HOLDERS = [
+    (('object',), 'C05Typed.partial(i=1, o={e})'),
+    (('object', 'list'), 'C05Typed.partial(i=1, lo=[C05Leaf(0), {e}])'),
+    (('object', 'tuple'), 'C05Tup.partial(tt=({e}, 1))'),
+    (('object', 'tuple'), 'C05Tup.partial(vt=(C05Leaf(0), {e}))'),
+    (('object', 'list', 'tuple'), 'C05Tup.partial(tl=[(0, {e})])'),
+    (('object', 'dict', 'tuple'), "C05Tup.partial(td={{'k': ({e}, 0)}})"),
+]
+
+PARTIAL_LEAVES = ['C05Leaf.partial()', "C05Typed.partial(s='b')",
+                  'C05Pair.partial(right=C05Leaf.partial())']
+
+# entry point -> (form, loader keywords that request partial loading).  pg.load
+# always loads with allow_partial=True (it accepts what pg.save accepted).
+_PARTIAL_ENTRIES = [
+    ('from_json', 'obj', dict(allow_partial='True')),
+    ('from_json_str', 'str', dict(allow_partial='True')),
+    ('load', 'save-load', None),
+    ('load', 'sym-save-load', None),
+    ('container-cls.from_json', 'container-cls', dict(allow_partial='True')),
+    ('sequence-with-deserializer', 'seq-deserializer', dict(allow_partial='True')),
+]
+
+_RP = "pg.KeyPath.parse('p.q[1]')"
+_ROOT_PATH_ENTRIES = [
+    ('from_json', 'obj', dict(root_path=_RP)),
+    ('from_json_str', 'str', dict(root_path=_RP)),
+    ('load', 'save-load', dict(root_path=_RP)),
+    ('container-cls.from_json', 'container-cls', dict(root_path=_RP)),
+]
+
+
+def position_universe(leaves, tier, seed, salt, pair_fraction=1.0):
+  """-> [(chain of container kinds, outermost first; src; value)]: a leaf at
+  every position of every container shape up to depth 2 (+ schema-backed
+  holders) and below tuple-containing shape triples.  quick: `pair_fraction`
+  of the shape pairs (seeded)."""
+  r = rng(seed, 'c05-pos-' + salt)
+  if tier == 'thorough':
+    pair_fraction = 1.0
+  out = []
+  for sn, sf in SHAPES:
+    for leaf in leaves:
+      out.append(((_SHAPE_KIND[sn],), sf(leaf, '0')))
+  for kind, tpl in TYPED_POSITION_HOLDERS:
+    for leaf in leaves:
+      if leaf.startswith('C05Leaf'):
+        out.append((kind, tpl.format(e=leaf)))
+  for on, of in SHAPES:
+    for inn, inf_ in SHAPES:
+      if r.random() >= pair_fraction:
+        continue
+      picks = leaves if tier == 'thorough' else (
+          [leaves[0], r.choice(leaves)] if r.random() < 0.34 else [leaves[0]])
+      for leaf in dict.fromkeys(picks):
+        out.append(((_SHAPE_KIND[on], _SHAPE_KIND[inn]), of(inf_(leaf, "'f'"), '(1, 2.5)')))
+    for kind, tpl in TYPED_POSITION_HOLDERS:
+      if leaves[0].startswith('C05Leaf') and r.random() < pair_fraction:
+        out.append(((_SHAPE_KIND[on],) + kind, of(tpl.format(e=leaves[0]), 'None')))
+  # three levels, every kind under every kind under a tuple and vice versa.
+  reps = [x for x in SHAPES if x[0] in ('list', 'tuple', 'dict-str', 'obj-any')]
+  for a in reps:
+    for b in reps:
+      for c in reps:
+        if 'tuple' in (a[0], b[0], c[0]):
+          out.append(((_SHAPE_KIND[a[0]], _SHAPE_KIND[b[0]], _SHAPE_KIND[c[0]]),
+                      a[1](b[1](c[1](leaves[0], 'None'), '1'), "'g'")))
+  seen, good = set(), []
+  for chain, src in out:
+    if src not in seen:
+      seen.add(src)
+      try:
+        good.append((chain, src, ev(src)))
+      except Exception:  # not constructible: not an input.  pylint: disable=broad-except
+        pass
+  return good
+
+
+def _applicable(form, v):
+  if form == 'sym-save-load':
+    return isinstance(v, pg.Symbolic)
+  if form == 'container-cls':
+    return isinstance(v, (list, dict)) and not isinstance(v, pg.Object)
+  return True
+
+
+def _run_positions(rec, family, uni, entries, tier, root_path=None):
+  """Blames the outermost container kind that already failed on its own, so
+  that one defective loader branch yields one case id per entry point.
+
+  quick: depth 1 x every entry point; deeper positions x (from_json |
+  from_json_str alternating) + one of the other entry points in rotation.
+  """
+  failed = {}
+  basic = entries[0][0]             # pg.from_json: every other entry is run after it.
+  for n, (chain, src, v) in enumerate(sorted(uni, key=lambda x: len(x[0]))):
+    if delicate_class(v, 'str'):
+      continue                       # marker collisions have their own ids.
+    first = True
+    todo = entries
+    if tier != 'thorough' and len(chain) > 1 and len(entries) > 2:
+      todo = [entries[n % 2], entries[2 + (n // 2) % (len(entries) - 2)]]
+    for entry, form, lkw, *rest in todo:
+      kw = rest[0] if rest else None
+      if not _applicable(form, v):
+        continue
+      bad = failed.setdefault(entry, set())
+      generic = failed.setdefault(basic, set())
+      if entry == basic or any(k in generic for k in chain):
+        # a container kind that fails with the basic entry point is one
+        # input class, whichever entry point is used.
+        blame = next((k for k in chain if k in generic), chain[-1])
+        cid = f'{family}/below-{blame}'
+      else:
+        blame = next((k for k in chain if k in bad), chain[-1])
+        cid = f'{family}/{entry}/below-{blame}'
+      # (the value is built once; that loading leaves it alone is checked on
+      # the first entry point.)
+      ok, _ = record_json(rec, family, src, form, cid=cid, _v=v, kw=kw, lkw=lkw,
+                          root_path=root_path, check_original=first)
+      first = False
+      if not ok and len(chain) == 1:
+        bad.add(chain[0])
+
+
+def drv_loader_options(tier, seed):
+  rec = Recorder(
+      'C05', 'loader options (allow_partial, root_path, auto_dict) reach every position of the '
+             'tree through every entry point',
+      scope='positions: a leaf below each of the 13 container shapes (list / tuple / dict with str, '
+            'int and mixed keys / pg.List / pg.Dict / object fields), all 169 shape pairs, tuple-'
+            'containing shape triples, and schema-backed fields (Object, List(Object), fixed and '
+            'variable Tuple of Object, List(Tuple), Dict(Tuple)); leaves: 3 partial objects '
+            '(quick: 1-2 per pair) loaded with allow_partial; a nested object loaded under a root_path; '
+            'auto_dict=True on fully resolvable values; a schema-backed object written with '
+            'hide_default_values=True (quick: these three on a seeded 30% of the pairs; '
+            'deeper positions x 2 entry points in rotation); entry points: pg.from_json, pg.from_json_str, '
+            'pg.save+pg.load, Symbolic.save+cls.load, pg.List/pg.Dict.from_json, record sequence with '
+            'an allow_partial deserializer, pg.open_jsonl (depth 1 only)')
+  uni = position_universe(PARTIAL_LEAVES, tier, seed, 'partial')
+  _run_positions(rec, 'json-partial', uni, _PARTIAL_ENTRIES, tier)
+  # pg.open_jsonl offers no way to ask for partial loading: its own class.
+  for chain, src, v in uni:
+    if len(chain) == 1:
+      record_json(rec, 'json-partial', src, 'open_jsonl', _v=v, check_original=False,
+                  cid='seq/open_jsonl-record-containing-a-partial-object')
+  for src in PARTIAL_LEAVES + PARTIALS:
+    for entry, form, lkw in _PARTIAL_ENTRIES:
+      if _applicable(form, ev(src)):
+        record_json(rec, 'json-partial', src, form, cid=f'json-partial/{entry}/root', lkw=lkw)
+  # root_path: every node of the restored tree is addressed below it.
+  uni = position_universe(['C05Leaf([C05Leaf(1)])'], tier, seed, 'root_path', 0.3)
+  _run_positions(rec, 'json-root_path', uni, _ROOT_PATH_ENTRIES, tier, root_path=_RP)
+  # auto_dict only matters for types that cannot be resolved.
+  uni = position_universe(["C05Leaf({'a': C05Leaf(1)})"], tier, seed, 'auto_dict', 0.3)
+  _run_positions(rec, 'json-auto_dict', uni,
+                 [('from_json', 'obj', dict(auto_dict='True')),
+                  ('from_json_str', 'str', dict(auto_dict='True')),
+                  ('load', 'save-load', dict(auto_dict='True'))], tier)
+  # writer options that shorten the JSON must not lose anything, wherever the
+  # schema-backed object sits.
+  uni = position_universe(["C05Typed(i=3, l=[1], d={'q': 's'})"], tier, seed, 'hide', 0.12)
+  hide = dict(hide_default_values='True')
+  _run_positions(rec, 'json-hide_default_values', uni,
+                 [('from_json', 'obj', None, hide), ('from_json_str', 'str', None, hide),
+                  ('load', 'save-load', None, hide), ('load', 'sym-save-load', None, hide)], tier)
   return rec.result()
 
 
@@ -1402,6 +1611,7 @@ class _FsHistory:
     self.sizes = {}          # path -> size of what was written last
     self.removed = set()
     self.lines = []
+    self.handles = []        # [(path key, reader handle left open)]
     if fs == 'std':
       self.lines.append('import tempfile\ntd = tempfile.mkdtemp()')
     self.binary = layer == 'raw-bytes'
@@ -1417,11 +1627,52 @@ class _FsHistory:
       return len(pg.to_json_str(content, json_indent=indent))   # classification only.
     return len(content)
 
+  def _peek(self, i, how):
+    """Opens a reader on path i, uses it (`how`) and leaves it open."""
+    p, pe, key = self._p(i), self._pe(i), self.paths[i]
+    n = len(self.handles)
+    mode = 'rb' if self.binary else 'r'
+    self.lines.append(f'h{n} = pg.io.open({pe}, {mode!r})' + (f'\nh{n}{how}' if how else ''))
+    h = pg.io.open(p, mode)
+    self.handles.append((key, h))
+    if how:
+      eval('h' + how, {'h': h})  # pylint: disable=eval-used
+
+  def _with_open_reader(self, cls, key):
+    if any(k == key for k, _ in self.handles):
+      cls = {'overwrite-shorter': 'overwrite', 'overwrite-longer': 'overwrite',
+             'overwrite-same-length': 'overwrite', 'append-existing': 'append'}.get(cls, cls)
+      return cls + '-while-reader-handle-open'
+    return cls
+
+  def close_handles(self):
+    for n, (_, h) in enumerate(self.handles):
+      self.lines.append(f'h{n}.close()')
+      h.close()
+
   def apply(self, op):
     """Returns (case class, error-or-None) after applying op to fs + model."""
-    kind, i, csrc = op
+    kind, i, csrc = op[:3]
+    how = op[3] if len(op) > 3 else None
     p, pe = self._p(i), self._pe(i)
     key = self.paths[i]
+    cls = kind
+    try:
+      if how is not None and key in self.model:
+        self._peek(i, how)
+      if kind == 'read':
+        return self._with_open_reader('read', key), None
+      if kind == 'close-handles':
+        self.close_handles()
+        cls = ('close-reader-handles-after-later-writes' if self.handles else 'read')
+        self.handles = []
+        return cls, None
+      cls, err = self._apply(kind, i, csrc, p, pe, key)
+      return self._with_open_reader(cls, key), err
+    except Exception as e:  # pylint: disable=broad-except
+      return self._with_open_reader(cls, key), f'{kind} raised {type(e).__name__}: {e}'
+
+  def _apply(self, kind, i, csrc, p, pe, key):
     try:
       if kind in ('write', 'append'):
         content = ev(csrc)
@@ -1519,7 +1770,7 @@ class _FsHistory:
     fam = f'fs.{self.fs}'
     tag = f'[{self.layer}{", os.PathLike" if self.pathlike else ""}] '
     for step, op in enumerate(ops):
-      kind, i, csrc = op
+      kind, i, csrc = op[:3]
       k = self.paths[i]
       if kind == 'write':
         self._last_src[k] = csrc
@@ -1551,11 +1802,48 @@ class _FsHistory:
     return True
 
   def cleanup(self):
+    for _, h in self.handles:
+      try:
+        h.close()
+      except Exception:  # pylint: disable=broad-except
+        pass
+    self.handles = []
     for k in list(self.model):
       try:
         pg.io.rm(k)
       except Exception:  # pylint: disable=broad-except
         pass
+
+
+# what is done with a reader handle before it is left open.
+_HOWS = ['', '.read()', '.read(1)', '.readline()', '.seek(0, 2)', '.seek(1)']
+
+
+def _fs_handle_histories(layer, tier, r, n_rand):
+  """Histories in which reader handles on a path stay open while the path is
+  re-read / overwritten / appended to / removed, and are closed late."""
+  writes, appends = _LAYERS[layer]
+  setups = writes[1:] if tier == 'thorough' else [writes[1], writes[3]]
+  seconds = ([('write', 0, c) for c in writes] + [('append', 0, c) for c in appends]
+             + [('rm', 0, None), ('read', 0, None)])
+  out = []
+  for c in setups:
+    for how in _HOWS:
+      for op2 in seconds:
+        out.append((('write', 0, c), op2 + (how,), ('close-handles', 0, None)))
+  base = _fs_ops(layer) + [('read', i, None) for i in range(3)]
+  for _ in range(n_rand):
+    h = [('write', r.randrange(2), r.choice(writes))]
+    for _ in range(r.randint(2, 5)):
+      op = r.choice(base)
+      x = r.random()
+      if x < 0.5:
+        op = op + (r.choice(_HOWS),)
+      elif x < 0.6:
+        op = ('close-handles', 0, None)
+      h.append(op)
+    out.append(tuple(h))
+  return out
 
 
 def _fs_ops(layer, npaths=3):
@@ -1577,8 +1865,11 @@ def drv_file_systems(tier, seed):
             '(4 values of different size, indent on/off) and txt; ops write x4 contents, append x2, rm, per '
             'path; ALL histories of length <= 2 (thorough: <= 3) + seeded histories of length 3..5; every path '
             'is re-read and path_exists checked after every step; history stops at its first failure; plus '
-            'relative path, os.PathLike paths and text<->bytes overwrite corner cases. Not covered: "\\r" in '
-            'text mode on the std fs (python newline translation), handles left open')
+            'relative path, os.PathLike paths and text<->bytes overwrite corner cases. reader handles left open: '
+            'write c; [open a reader, nothing|read()|read(1)|readline()|seek(end)|seek(1), keep it open] + '
+            're-read | overwrite x4 | append x2 | rm; close the handles late (all layers; quick: 2 of 3 '
+            'initial contents) + seeded histories mixing these over 3 paths. Not covered: "\\r" in '
+            'text mode on the std fs (python newline translation), writer handles left open')
   td = tempfile.mkdtemp(prefix='c05fs')
   r = rng(seed, 'c05-fs')
   counter = [0]
@@ -1609,6 +1900,12 @@ def drv_file_systems(tier, seed):
             hist = new_hist(fs, layer, set_name)
             hist.run(rec, h, (fs, set_name, layer, tuple((k, i, c) for k, i, c in h)))
             hist.cleanup()
+      # reader handles left open.
+      for layer in _LAYERS:
+        for h in _fs_handle_histories(layer, tier, r, n_rand):
+          hist = new_hist(fs, layer, 'plain')
+          hist.run(rec, h, (fs, 'handles', layer, h))
+          hist.cleanup()
       # os.PathLike paths.
       for layer in ('save-json', 'raw-text'):
         ops = _fs_ops(layer)
@@ -1686,6 +1983,7 @@ class _SeqHistory:
   def __init__(self, kind, ser, exprs, paths):
     self.kind, self.ser, self.exprs, self.paths = kind, ser, exprs, paths
     self.model, self.sizes = {}, {}
+    self.handles = []     # [(path key, reader left open, its iterator)]
     self.lines = ['import tempfile\ntd = tempfile.mkdtemp()'] if any('td' in e for e in exprs) else []
     self.lists = (_JSON_LISTS if ser == 'jsonl' else
                   _RAW_LISTS_MEM if kind == 'mem-sequence' else _RAW_LISTS)
@@ -1704,10 +2002,57 @@ class _SeqHistory:
       return sum(len(pg.to_json_str(x)) + 1 for x in recs)   # classification only.
     return sum(len(x) + 1 for x in recs)
 
-  def session(self, mode, i, li):
+  def _peek(self, i, count):
+    """Opens a reader on path i, takes `count` records and leaves it open."""
+    n = len(self.handles)
+    f, osrc = self._open(i, 'r')
+    it = iter(f)
+    self.lines.append(f'r{n} = {osrc}\nit{n} = iter(r{n})')
+    self.handles.append((self.paths[i], f, it))
+    taken = 0
+    while count == 'all' or taken < count:
+      try:
+        next(it)
+      except StopIteration:
+        break
+      taken += 1
+    self.lines.append(f'for _ in range({taken}):\n  next(it{n})')
+
+  def close_handles(self):
+    for n, (_, f, _) in enumerate(self.handles):
+      self.lines.append(f'r{n}.close()')
+      f.close()
+    self.handles = []
+
+  def _with_open_reader(self, cls, key):
+    if any(k == key for k, _, _ in self.handles):
+      cls = {'rewrite-with-less-data': 'rewrite', 'rewrite-with-more-or-equal-data': 'rewrite',
+             'append-to-existing': 'append'}.get(cls, cls)
+      return cls + '-while-reader-open'
+    return cls
+
+  def session(self, mode, i, li, peek=None):
+    key = self.paths[i]
+    if mode == 'close':
+      cls = 'close-readers-after-later-sessions' if self.handles else 'read'
+      try:
+        self.close_handles()
+      except Exception as e:  # pylint: disable=broad-except
+        return cls, f'closing raised {type(e).__name__}: {e}'
+      return cls, None
+    if peek is not None and key in self.model:
+      try:
+        self._peek(i, peek)
+      except Exception as e:  # pylint: disable=broad-except
+        return 'read', f'reading raised {type(e).__name__}: {e}'
+    if mode == 'r':
+      return self._with_open_reader('read', key), None
+    cls, err = self._session(mode, i, li, key)
+    return self._with_open_reader(cls, key), err
+
+  def _session(self, mode, i, li, key):
     srcs = self.lists[li]
     recs = [ev(s) for s in srcs]
-    key = self.paths[i]
     if mode == 'a':
       cls = 'append-to-existing' if key in self.model else 'append-to-new'
     elif key not in self.model:
@@ -1755,9 +2100,27 @@ class _SeqHistory:
       d = f'len() is {n}, want {len(want)}'
     return (f'{key}: {d}; got {got!r:.120}' if d else None), wl
 
+  def case_id(self, cls):
+    if self.kind == 'line-mem' and cls.endswith('-while-reader-open'):
+      # a line sequence on /mem/ is a /mem/ file: same input class (and id) as
+      # in drv_file_systems.
+      op = cls[:-len('-while-reader-open')]
+      return f"fs.mem/{'overwrite' if op == 'rewrite' else op}-while-reader-handle-open"
+    return f'seq.{self.kind}/{cls}'
+
   def run(self, rec, hist, key):
-    for step, (mode, i, li) in enumerate(hist):
-      cls, err = self.session(mode, i, li)
+    try:
+      return self._run(rec, hist, key)
+    finally:
+      try:
+        self.close_handles()
+      except Exception:  # pylint: disable=broad-except
+        pass
+
+  def _run(self, rec, hist, key):
+    for step, sess in enumerate(hist):
+      mode, i, li = sess[:3]
+      cls, err = self.session(mode, i, li, sess[3] if len(sess) > 3 else None)
       bad = None
       if err:
         bad = (cls, err, '')
@@ -1770,7 +2133,7 @@ class _SeqHistory:
       header = 'import pathlib\nimport pyglove as pg\n'
       if 'C05' in ''.join(self.lines):
         header += f'from {_MOD} import *\n'
-      rec.case(f'seq.{self.kind}/{bad[0] if bad else cls}', (key, step), bad is None,
+      rec.case(self.case_id(bad[0] if bad else cls), (key, step), bad is None,
                f'[{self.ser}] {bad[1]}' if bad else '',
                header + '\n'.join(self.lines) + '\n' + (bad[2] if bad else ''))
       if bad:
@@ -1784,7 +2147,9 @@ def drv_sequences(tier, seed):
       scope='kinds: in-memory sequence (*.mem), line sequence on std fs, line sequence on /mem/; '
             'raw str records and pg.open_jsonl values (newlines, unicode line separators, nan, int keys, '
             'tuples, objects); sessions (w|a) x 2 paths x 5 record lists; ALL histories of <= 2 sessions '
-            '(thorough: <= 3) + seeded longer ones; both paths re-read after every session. Raw records of '
+            '(thorough: <= 3) + seeded longer ones; both paths re-read after every session; readers left open '
+            '(0 / 1 / all records taken) while the path is re-read, rewritten (5 lists) or appended to '
+            '(5 lists), closed afterwards, + seeded histories mixing these. Raw records of '
             'line sequences exclude "\\n" / "\\r" (the format is line based)')
   td = tempfile.mkdtemp(prefix='c05seq')
   r = rng(seed, 'c05-seq')
@@ -1815,6 +2180,24 @@ def drv_sequences(tier, seed):
           hists += list(itertools.product(ops, repeat=n))
         for _ in range(n_rand):
           hists.append(tuple(r.choice(ops) for _ in range(r.randint(3, 5))))
+        # readers that are left open (partly / fully iterated) while the same
+        # path is re-read, rewritten or appended to; closed late.
+        for li in ((1, 2, 3, 4) if tier == 'thorough' else (1, 3)):
+          for peek in (0, 1, 'all'):
+            for second in ([('w', 0, x) for x in range(5)] + [('a', 0, x) for x in range(5)]
+                           + [('r', 0, 0)]):
+              hists.append((('w', 0, li), second + (peek,), ('close', 0, 0)))
+        for _ in range(n_rand):
+          h = [('w', r.randrange(2), r.randrange(1, 5))]
+          for _ in range(r.randint(2, 4)):
+            x = r.random()
+            sess = r.choice(ops) if x < 0.8 else ('r', r.randrange(2), 0)
+            if x < 0.1:
+              sess = ('close', 0, 0)
+            elif r.random() < 0.5:
+              sess = sess + (r.choice((0, 1, 'all')),)
+            h.append(sess)
+          hists.append(tuple(h))
         for h in hists:
           exprs, paths = paths_for(kind)
           _SeqHistory(kind, ser, exprs, paths).run(rec, h, (kind, ser, h))
@@ -1967,7 +2350,8 @@ def drv_pickle_deepcopy(tier, seed):
   rec = Recorder(
       'C05', 'pickle and copy.deepcopy reproduce the value',
       scope='value universe (all leaves and depth-1 shapes, keys, tuple corner list, seeded deeper values), '
-            'typed objects, flagged containers (sealed / partial / accessor_writable / value_spec), value specs, '
+            'typed objects, flagged containers (sealed / partial / accessor_writable / value_spec), partial objects '
+            'below every container shape and schema-backed tuple/list/dict field, value specs, '
             'key specs, schemas, geno specs, DNAs; methods deepcopy, pickle default (+ protocols 2 and 5 in '
             'thorough); oracle: structural equality, exact type, pg.eq, pg.hash, well-formed tree, no shared '
             'mutable node, flags, nested value specs (deepcopy: also the root value_spec), original untouched, '
@@ -1983,6 +2367,9 @@ def drv_pickle_deepcopy(tier, seed):
   items = [(l.split('/')[0], s) for l, s in shallow + deeper]
   items += [('typed', s) for s in typed_universe('quick', seed)[:: (1 if tier == 'thorough' else 3)]]
   items += [('flagged', s) for s in FLAGGED + PARTIALS]
+  # a partial object at every position (below every container kind).
+  items += [('partial-position', sf(leaf, '0')) for _, sf in SHAPES for leaf in PARTIAL_LEAVES[::2]]
+  items += [('partial-position', tpl.format(e=PARTIAL_LEAVES[0])) for _, tpl in TYPED_POSITION_HOLDERS]
   specs = [s for _, s in SPECS] + KEY_SPECS + SCHEMAS
   items += [('spec', s) for s in (specs if tier == 'thorough' else specs[::3])]
   geno = GENO_POINTS + GENO_FROM_HYPER + HYPER_VALUES
@@ -2013,7 +2400,7 @@ def drv_pickle_deepcopy(tier, seed):
   return rec.result()
 
 
-DRIVERS = [drv_json_values, drv_typed_objects, drv_specs, drv_geno_dna,
+DRIVERS = [drv_json_values, drv_typed_objects, drv_loader_options, drv_specs, drv_geno_dna,
            drv_file_systems, drv_sequences, drv_pickle_deepcopy]
 
 
